@@ -38,6 +38,9 @@ def shapes(tier):
             out.append({'widths': ws, 'g': True, 'kind': kind, 'regime': 'small'})
     out.append({'widths': [1, 2], 'g': False, 'kind': 'full'})
     out.append({'widths': [], 'g': True, 'kind': 'full'})
+    # full windows in grapheme mode over texts that can contain multi-code-point clusters (CR LF, base + mark)
+    for ws in ([[1], [1, 1], [1, 2], [3, 3], [1, 2, 1]] if tier == 'quick' else [[1], [2], [1, 1], [1, 2], [2, 1], [3, 3], [1, 2, 1], [1, 1, 1], [3, 2, 3]]):
+        out.append({'widths': ws, 'g': True, 'kind': 'full'})
     tiny = [s for s in out if len(s['widths']) <= 1]
     rest = [s for s in out if len(s['widths']) > 1]
     rest.sort(key=lambda s: -(len(s['widths']) + (3 if s['g'] else 0)))
